@@ -186,7 +186,7 @@ pub fn compare_tol<F: Flt>(l: &Layout, got: &Parts<F>, want: &Val, extra: Option
                 tol += ex;
             }
         }
-        tol = tol * slack + 1e-24 * w.abs_dd().to_f64();
+        tol = tol * slack + 1e-24 * w.abs_dd().to_f64() + 4096.0 * F::TINY;
         let g = got.alpha(l, i).to64();
         let diff = DD::f(g).sub_dd(w).abs_dd().to_f64();
         let ok = diff <= tol; // false for NaN
